@@ -156,7 +156,9 @@ PushOK(r, m) == \A b \in Bugs : ref[r][b] # 0 /\ hub[m][b] # 0 => hub[m][b] \in 
 Push(r, m) ==          \* with nothing to push it succeeds and changes nothing
   /\ IF PushOK(r, m)
      THEN /\ hub' = [hub EXCEPT ![m] = [b \in Bugs |-> IF ref[r][b] # 0 THEN ref[r][b] ELSE hub[m][b]]]
-          /\ trk' = [trk EXCEPT ![r][m] = [b \in Bugs |-> IF ref[r][b] # 0 THEN ref[r][b] ELSE trk[r][m][b]]]
+          \* the remote-tracking ref follows for the refs that were actually sent (a ref the remote already holds at the same
+          \* commit - it got there through another replica and another remote - is not sent, its tracking ref stays what it was)
+          /\ trk' = [trk EXCEPT ![r][m] = [b \in Bugs |-> IF ref[r][b] # 0 /\ hub[m][b] # ref[r][b] THEN ref[r][b] ELSE trk[r][m][b]]]
           /\ res' = [kind |-> "push", r |-> r, ok |-> TRUE]
      ELSE /\ UNCHANGED <<hub, trk>>
           /\ res' = [kind |-> "push", r |-> r, ok |-> FALSE]
